@@ -323,7 +323,7 @@ def case_text(case):
     return t if case['terminal'] else '%s.take(%d)' % (t, case['k'])
 
 
-def run_real(case, timeout=4):
+def run_real_once(case, timeout=4):
     eng, ctx, counter = setup_engine()
     text = case_text(case)
     srcobj = Source(case['base'], case['delta'], case['dict'])
@@ -341,6 +341,13 @@ def run_real(case, timeout=4):
         return dict(kind='timeout', pulls=srcobj.pulls, apps=counter[0], text=text)
     except Exception as e:
         return dict(kind='err', cls=type(e).__name__, pulls=srcobj.pulls, apps=counter[0], text=text)
+
+
+def run_real(case, timeout=4):
+    r = run_real_once(case, timeout)
+    if r['kind'] == 'timeout':          # believed only when it repeats with a much longer allowance
+        r = run_real_once(case, 8 * timeout)
+    return r
 
 
 def run_ref(case):
